@@ -8,6 +8,7 @@ TNext ==
    /\ LET ev == TraceLog[l] IN
       IF ev.e = "Reset" THEN TRUE
       ELSE IF ev.e = "Fault" THEN Flag(l, <<"fault">>, [kind |-> ev.kind, where |-> ev.where])
+      ELSE IF ev.e = "Pf" THEN TRUE       \* (the other conversion family, logged by re-entrant calls: judged by the other trace specification)
       ELSE LET errs == PfErrs(ev.fmt, ev.ws, ev.ps, ev.dbl, ev.out, ev.ret) IN
            IF errs # {} THEN Flag(l, SetToSeq(errs), [x |-> DblOf(ev.dbl), dir |-> FDir(ev.fmt, ev.ws, ev.ps), body |-> Body(ev.out, FDir(ev.fmt, ev.ws, ev.ps), DblOf(ev.dbl).neg)]) ELSE TRUE
 TSpec == TInit /\ [][TNext]_<<l, sync>>
